@@ -300,6 +300,7 @@ func (e *Exec) cover(st State, fn *ssa.Function, kind string) {
 	as := append([]*Term{}, e.axioms...)
 	as = append(as, st.pcList()...)
 	ob.Asserts = as
+	ob.Hints = append([]*Term{}, e.hints...)
 	ob.Props = e.curProps
 	e.obls = append(e.obls, ob)
 }
